@@ -57,7 +57,7 @@ def make_small(rng):
                            'Float64_na', 'string_na', 'Int64_unique_one_na', 'many_nan_float',
                            'categorical_unused', 'datetime_nat', 'bigint_unique', 'sorted_dup_gap',
                            'sorted_unique', 'sorted_desc_dup', 'timedelta_nat', 'sorted_float_dup_gap',
-                           'sorted_str_dup'])
+                           'sorted_str_dup', 'obj_distinct_nans'])
         name = 'c%d_%s' % (c, kind)
         if kind in ('sorted_dup_gap', 'sorted_desc_dup', 'sorted_float_dup_gap', 'sorted_unique'):
             # consecutive ids in sorted order; one id repeated and the next one skipped, so that first,
@@ -72,6 +72,11 @@ def make_small(rng):
                 vals = vals[::-1]
             cols[name] = pd.Series(vals, dtype='float64' if kind == 'sorted_float_dup_gap' else
                                    rng.choice(['int64', 'int32']))
+        elif kind == 'obj_distinct_nans':
+            # every missing cell is a NaN object of its own (float('nan') per cell, a float column
+            # converted with astype(object)): still ONE missing value for the distinct count
+            cols[name] = pd.Series([float('nan') if rng.random() < 0.4 else rng.choice(['x', 'y', 1, 2.5])
+                                    for _ in range(n)], dtype=object)
         elif kind == 'sorted_str_dup':
             vals = sorted('k%04d' % rng.randint(0, 2 * n) for _ in range(n))
             cols[name] = pd.Series(vals, dtype=rng.choice([object, 'str']))
@@ -272,6 +277,8 @@ def run_case(case, rec, ssj=None):
             attrs = np.array(attrs, dtype=object)
         elif form < 0.30 and len(cols) > 1:
             attrs = df.columns[1:]
+        elif form < 0.36:
+            attrs = df.columns          # the table's own Index object
     rec.add('profile_attrs_forms', type(attrs).__name__)
     snap = T.snapshot_df(df) if len(df) < 100 else None
     tag = 'profile_table_for_join(%d rows, attrs=%r): ' % (len(df), attrs)
